@@ -977,6 +977,18 @@ def run(ctx):
                                    and not (x.get("cond") is not None and any(y is bc for y in hirq.walk(x["cond"])))]
                             if not own:
                                 counters.add(b)
+                # or the loop itself counts: `for (x, i) in coll.into_iter().zip(0..)` / `for (i, x) in coll.iter().enumerate()`
+                _, chain5 = method_chain(g, lp["iter"])
+                pat5 = lp["pat"]
+                if pat5.get("k") == "ptup" and len(pat5["a"]) == 2 and all(s.get("k") == "bind" for s in pat5["a"]):
+                    for m5, n5 in chain5[-1:]:
+                        if m5 == "enumerate" and not n5["a"]:
+                            counters.add(pat5["a"][0]["b"])
+                        if m5 == "zip" and len(n5["a"]) == 1:
+                            rng = peel(n5["a"][0], NO_T)
+                            start = [v for name, v in rng.get("f", []) if name == "start"] if rng.get("k") == "struct" else []
+                            if (rng.get("r") or {}).get("p", "").endswith("RangeFrom") and start and const_eval(start[0]) == 0:
+                                counters.add(pat5["a"][1]["b"])
                 idxs = [c for c in setter(p_index) if len(c["a"]) > 1 and depends_on(g, c["a"][1], counters)]
                 ctx.ob("R08.5", site_key(g, "index set from a per-iteration counter before the body", i), len(idxs) >= 1 and bool(counters), line_of(bc),
                        "counters incremented after the body: %d; setters of `index`: %s" % (len(counters), [describe(c) for c in idxs]))
